@@ -14,38 +14,35 @@ LEVEL = "proof"
 RULE = ("kinds: plain (random rows, arity 1-3, constructed with no mappings; observations/mask given or not), reuse (construct a "
         "superset screen, then the screen under test from a random sub-list of its rows with the superset's own mappings: "
         "mappings strictly larger than the data, the train/test situation), shuffled (as reuse but the supplied mappings are "
-        "hand-permuted, so stored order != sorted order), empty (0 rows, with or without supplied mappings), nan_dose (NaN doses; "
+        "hand-permuted, so stored order != sorted order), empty (0 rows — fresh empty mappings or supplied non-empty ones; arity 1-3 must "
+        "survive), nan_dose (NaN doses; "
         "implementation-side predicate only), each as a Screen "
         "or as ExperimentSpace.from_screen; 1-3 consecutive save_h5/load_h5 cycles through real h5py files. Names: '', "
         "non-ASCII incl. 3- and 4-byte UTF-8, unequal lengths, inner/trailing blanks; control name '', ASCII, non-ASCII; doses incl. "
         "-0.0, subnormal, inf; observations as raw bit patterns incl. -0.0, subnormals, +-inf, quiet/signalling NaN payloads, "
         "random 64-bit patterns. Non-trivial: at least 2 rows; distinct by canonical description.")
 THEOREMS = {
-    "C02_load_save": "every screen returned by the constructor (any rows, flags, built or supplied mappings incl. strict supersets in "
-                     "any stored order) with >= 1 row and >= 1 treatment column satisfies load (save s) = Ok s: the whole record "
-                     "(rows, control name, the three id arrays, the three mappings) is reproduced",
+    "C02_load_save": "EVERY screen returned by the constructor (any rows incl. none, any arity, flags, built or supplied mappings "
+                     "incl. strict supersets in any stored order) satisfies load (save s) = Ok s: the whole record (rows, arity, "
+                     "control name, the three id arrays, the three mappings) is reproduced",
     "C02_load_save_observables": "the same, observable by observable (sample/plate/treatment names, dose keys, observation bit "
-                                 "patterns, mask, control name, treatment/sample/plate ids, the three mappings in stored order)",
-    "C02_no_renumber": "whenever a saved constructible screen loads, ids and mappings are literally those of the saved screen, and a "
-                       "supplied mapping (entries no row uses included) is what comes back",
-    "C02_fixed_point": "if load (save s) = Ok s' then save s' = save s, load (save s') = Ok s' and n cycles from s' return s'",
-    "C02_any_number_of_cycles": "n save/load cycles of a constructible screen with rows return that screen, for every n",
-    "C02_load_save_characterised": "exact: load (save s) = Ok s if rows and arity are non-zero, Err 8 (string decode of an empty "
-                                   "dataset) otherwise",
-    "C02_load_save_refuted": "the literal clause 'every constructible screen' is false: the 0-row screen is constructible, saves, "
-                             "and does not load",
-    "C02_load_save_refuted_supplied": "the same with supplied non-empty mappings (empty split of a non-empty screen)",
-    "C02_space_load_save": "an experiment space with non-empty mappings satisfies space_load (space_save sp) = Ok sp",
-    "C02_space_fixed_point": "whenever a saved space loads it is the saved space; second save identical; n cycles return it",
-    "C02_space_of_screen": "the space of every constructible screen with rows round-trips for any number of cycles, and from_screen "
-                           "commutes with the screen's own round trip",
-    "C02_space_load_save_characterised": "exact: Ok sp iff both mappings are non-empty, else Err 8",
-    "C02_space_load_save_refuted": "the space of the constructible 0-row screen saves and does not load",
+                                 "patterns, mask, arity, control name, treatment/sample/plate ids, the three mappings in stored order)",
+    "C02_no_renumber": "the ids and mappings after the load are literally those of the saved screen, and a supplied mapping "
+                       "(entries no row uses included) is what comes back",
+    "C02_fixed_point": "load (save s) = Ok s' with save s' = save s, load (save s') = Ok s' and n cycles from s' return s'",
+    "C02_any_number_of_cycles": "n save/load cycles of any constructible screen return that screen, for every n",
+    "C02_load_save_characterised": "exact, for any screen record: load (save s) is the constructor call load_h5 makes (stored rows, "
+                                   "arity, control name; observations and mask given; stored treatment/sample mappings supplied)",
+    "C02_space_load_save": "every experiment space satisfies space_load (space_save sp) = Ok sp (empty mappings included)",
+    "C02_space_fixed_point": "the loaded space is the saved one; second save identical; n cycles return it",
+    "C02_space_any_number_of_cycles": "n save/load cycles of any space return it",
+    "C02_space_of_screen": "the space of every constructible screen round-trips for any number of cycles, and from_screen commutes "
+                           "with the screen's own round trip",
 }
 ASSUMPTIONS = [
     "h5py dataset write/read is the identity on numeric and bool arrays (values bit-for-bit, shape, dtype) and on a str attribute",
-    "np.char.encode/decode (UTF-8) are mutually inverse on non-empty arrays of valid NUL-free strings; on a size-0 array "
-    "np.char.encode (numpy 1.26.4) returns an empty float64 array and np.char.decode of it raises TypeError (modelled: Err 8)",
+    "encode_string_array/decode_string_array (np.char.encode/decode, UTF-8; size-0 arrays mapped to empty bytes/str arrays of the "
+    "same shape) are mutually inverse on arrays of valid NUL-free strings of any shape, including (0,) and (0, arity)",
     "the id arrays of a constructed screen's mappings are int64 (pandas RangeIndex arithmetic, or accepted by "
     "numpy_array_is_0_indexed_integers); the harness asserts this dtype on every case",
     "doses cross the wire as order keys identifying -0.0 and 0.0 (pandas merge does); raw dose bits are compared on the "
@@ -59,8 +56,13 @@ EXPLANATION = ("Model: Model/Persist.v (save/load/space_save/space_load over Mod
                "implementation after k real save_h5/load_h5 cycles: every row (names, dose keys, observation bits, mask), "
                "treatment/sample/plate ids, the three mappings in stored order, ExperimentSpace sizes, and every dataset of the "
                "last file read back raw with h5py; or error-ness.  Predicate (implementation only): field-by-field equality "
-               "before vs after each cycle incl. raw dose bits, dtypes, type of the control name, and dataset-by-dataset "
-               "equality of consecutive files.")
+               "before vs after each cycle incl. raw dose bits, array shapes, dtypes, type of the control name, and "
+               "dataset-by-dataset equality of consecutive files.  corpus/C02/zero_rows.json and empty_space.json are the "
+               "witnesses of the defect repaired in /repo 81a412f (0-row screen / empty-mapping space did not load).")
+
+# witnesses of the repaired defect (also stored as corpus/C02/*.json, run first on every check)
+WITNESS_ZERO_ROWS = dict(kind="empty", rows=[], arity=1, ctrl="", obs_given=True, mask_given=True, sel=None, shuffle=None, k=1, space=False)
+WITNESS_EMPTY_SPACE = dict(kind="empty", rows=[], arity=1, ctrl="", obs_given=True, mask_given=True, sel=None, shuffle=None, k=1, space=True)
 TRUSTED = ["h5py 3.x / HDF5 as the storage layer (real files are written and read in every case)"]
 
 MYNAMES = ["", "a", "b", "ab", "é", "á", "control", "c", "B", "aa", "drug with blanks", "x ", " x", "日本", "𝛼β", "long-name-0123456789",
@@ -217,7 +219,7 @@ def _raw_file(path):
 
 
 def _dec(a):
-    """string dataset -> list of code-point lists; a size-0 dataset (float64, see Model/Persist.v) is []"""
+    """string dataset -> list of code-point lists (flattened); a size-0 dataset is []"""
     a = np.asarray(a)
     if a.size == 0:
         return []
@@ -230,10 +232,11 @@ def _canon_file(path):
 
     with h5py.File(path, "r") as f:
         tn = f["treatment_names"][:]
-        n, a = (tn.shape if tn.ndim == 2 else (0, 0))
-        flat = _dec(tn)
-        tnames = [flat[i * a:(i + 1) * a] for i in range(n)] if tn.size else []
         td = f["treatment_doses"][:]
+        # the 2-d shape must be stored (also without rows) and be the same for names and doses, else arity -1
+        n, a = (tn.shape if (tn.ndim == 2 and tn.shape == td.shape and tn.dtype.kind == "S") else (0, -1))
+        flat = _dec(tn)
+        tnames = [flat[i * a:(i + 1) * a] for i in range(n)] if tn.size else [[] for _ in range(n)]
         ti = f["treatment_ids"][:]
         return [tnames,
                 [[float_key(x) for x in r] for r in td],
@@ -244,7 +247,7 @@ def _canon_file(path):
                 [int(x) for x in f["sample_ids"][:]], _dec(f["sample_names"][:]),
                 _dec(f["sample_mapping_names"][:]), [int(x) for x in f["sample_mapping_ids"][:]],
                 [int(x) for x in f["plate_ids"][:]], _dec(f["plate_names"][:]),
-                s2l(str(f.attrs["control_treatment_name"]))]
+                s2l(str(f.attrs["control_treatment_name"])), int(a)]
 
 
 def _canon_sfile(path):
@@ -321,12 +324,12 @@ def gen(rng, tier):
         rows[0]["t"][0][1] = float("nan")
         yield dict(kind="nan_dose", rows=rows, arity=a, ctrl=ctrl, obs_given=True, mask_given=True, sel=None, shuffle=None,
                    k=rng.choice([1, 2]), space=False)
-    for i in range(8 * N):  # screens without rows (constructible): fresh (empty) mappings / supplied non-empty mappings
+    for i in range(16 * N):  # screens without rows (constructible): fresh (empty) mappings / supplied non-empty mappings
         ctrl = rng.choice(MYCTRLS)
         rows, a = _rows(rng, n=[0, 2, 0, 3][i % 4], ctrl=ctrl)
         sel = [False] * len(rows) if rows else None
-        yield dict(kind="empty", rows=rows, arity=a, ctrl=ctrl, obs_given=True, mask_given=True, sel=sel, shuffle=None,
-                   k=1, space=(i % 8) >= 4)
+        yield dict(kind="empty", rows=rows, arity=a, ctrl=ctrl, obs_given=(i % 16) < 12 or bool(rows), mask_given=(i % 16) < 8 or bool(rows),
+                   sel=sel, shuffle=None, k=1 + (i % 3), space=(i % 8) >= 4)
 
 
 # --------------------------------------------------------------------------- run
@@ -335,7 +338,9 @@ def gen(rng, tier):
 def _features(desc, d_eff, n_rows, strict):
     f = [desc["kind"], "arity%d" % desc["arity"], "cycles%d" % desc["k"]]
     rows = d_eff["rows"]
-    if n_rows < 2:
+    if n_rows == 0:
+        f.append("zero_rows")
+    elif n_rows < 2:
         f.append("trivial")
     if strict:
         f.append("strict_superset_mapping")
@@ -424,8 +429,7 @@ def run(desc):
                 try:
                     cur = Screen.load_h5(p)
                 except Exception as e:  # noqa
-                    tag = "load_raises_on_zero_rows" if s0.size == 0 else "load_raises"
-                    pred = "%s: cycle %d: load_h5 of the file save_h5 wrote raises %s: %s" % (tag, c + 1, type(e).__name__, str(e)[:200])
+                    pred = "load_raises: cycle %d: load_h5 of the file save_h5 wrote raises %s: %s" % (c + 1, type(e).__name__, str(e)[:200])
                     impl = ImplError(e)
                     break
                 after = _snap_screen(cur)
@@ -461,10 +465,8 @@ def run(desc):
                 try:
                     cur = ExperimentSpace.load_h5(p)
                 except Exception as e:  # noqa
-                    emp = len(sp0.treatment_mapping[0]) == 0 or len(sp0.sample_mapping[0]) == 0
-                    tag = "space_load_raises_on_empty_mapping" if emp else "space_load_raises"
-                    pred = "%s: cycle %d: ExperimentSpace.load_h5 of the file save_h5 wrote raises %s: %s" % (
-                        tag, c + 1, type(e).__name__, str(e)[:200])
+                    pred = "space_load_raises: cycle %d: ExperimentSpace.load_h5 of the file save_h5 wrote raises %s: %s" % (
+                        c + 1, type(e).__name__, str(e)[:200])
                     impl = ImplError(e)
                     break
                 after = _snap_space(cur)
